@@ -355,6 +355,63 @@ def feed(data, cuts, via_channel=False):
     return ep.log, err, req.written
 
 
+class RaisingEndpoint(Endpoint):
+    """fails on its first frame"""
+
+    def callback(self, handler, opcode, payload):
+        Endpoint.callback(self, handler, opcode, payload)
+        if len(self.log) == 1:
+            raise RuntimeError("endpoint fails on its first frame (injected)")
+
+
+class ReentrantEndpoint(Endpoint):
+    """a loopback transport: while the first frame is being handled the next chunk of the stream arrives"""
+
+    def __init__(self):
+        Endpoint.__init__(self)
+        self.pending = []
+        self.errors = []
+
+    def callback(self, handler, opcode, payload):
+        Endpoint.callback(self, handler, opcode, payload)
+        if self.pending:
+            chunk = self.pending.pop(0)
+            try:
+                handler(chunk)
+            except Exception as e:
+                self.errors.append(e)
+
+
+def feed_misbehaving(data, cuts, mode):
+    ep = RaisingEndpoint() if mode == "raise" else ReentrantEndpoint()
+    req = FakeRequest()
+    buf = WebSocketTemporaryRingBuffer(req)
+    handler = WebSocketTemporaryHandler(("1.2.3.4", 5), {}, {}, buf, ep)
+    chunks = []
+    pos = 0
+    for c in list(cuts) + [len(data)]:
+        chunks.append(data[pos:c])
+        pos = c
+    raised = 0
+    if mode == "reentrant":
+        ep.pending = chunks[1:]
+        chunks = chunks[:1]
+    for chunk in chunks + [b""]:
+        try:
+            handler(chunk)
+        except RuntimeError:
+            raised += 1
+        except Exception as e:
+            return ep.log, e
+    if mode == "reentrant":
+        while ep.pending:
+            handler(ep.pending.pop(0))
+        handler(b"")
+        if ep.errors:
+            return ep.log, ep.errors[0]
+    return ep.log, None
+
+
 def stream_work_init(tier):
     global _TIER, _SEQS
     _TIER = tier
@@ -383,6 +440,19 @@ def stream_work(arg):
             if err is not None:
                 viols.setdefault(("stream-raises", "the handler raises %s when %s" % (type(err).__name__, shape)), [0, wit, repr(err)])[0] += 1
                 continue
+            if len(seq) >= 2 and len(cuts) <= 1 and not any(op == WebSocketOpCode.Close for op, _ in seq):
+                for mode in ("raise", "reentrant"):
+                    total += 1
+                    log2, err2 = feed_misbehaving(data, cuts, mode)
+                    norm2 = [(o, bytes(p) if not isinstance(p, str) else p) for o, p in log2]
+                    if err2 is not None:
+                        viols.setdefault(("stream-raises", "the handler raises %s when %s" % (type(err2).__name__, "the endpoint failed on an earlier frame" if mode == "raise" else "it is re-entered from the endpoint callback")),
+                                         [0, dict(wit, mode=mode), repr(err2)])[0] += 1
+                    elif norm2 != want:
+                        viols.setdefault(("stream-delivery", "client frames %s when %s" % (
+                            "lost" if len(norm2) < len(want) else ("duplicated/extra" if len(norm2) > len(want) else "out of order"),
+                            "the endpoint fails on the first frame of a read that holds several" if mode == "raise" else "the next chunk arrives while the first frame is being handled (re-entrant call)")),
+                            [0, dict(wit, mode=mode), "delivered %r, sent %r" % ([(o, p[:6]) for o, p in norm2][:4], [(o, p[:6]) for o, p in want][:4])])[0] += 1
             norm = [(o, bytes(p) if not isinstance(p, str) else p) for o, p in log]
             if norm != want:
                 what = "lost" if len(norm) < len(want) else ("duplicated/extra" if len(norm) > len(want) else "garbled")
